@@ -55,6 +55,13 @@ def tier_cases(prop, tier, seed):
 
 
 def run_compare(prop, hbin, dbin, cases):
+    # two random draws of a generator may give the same name at some seed: the later case gets a numbered name
+    # (deterministic: the order of the cases is), it is not dropped and the run does not stop
+    count = {}
+    for c in cases:
+        count[c.cid] = count.get(c.cid, 0) + 1
+        if count[c.cid] > 1:
+            c.cid = "%s~%d" % (c.cid, count[c.cid])
     ids = [c.cid for c in cases]
     assert len(ids) == len(set(ids)), "case ids are not unique: %r" % [i for i in set(ids) if ids.count(i) > 1][:5]
     impl = vf.run_sharded(hbin, cases)
